@@ -170,6 +170,39 @@ def identity_stratum(rnd):
     return blocks, [host, rnd_host(rnd)]
 
 
+def match_host_stratum():
+    """FIXED family (no randomness): a block that sets HostName, a `Match host <pattern>` block that applies only
+    through that configured HostName (not through the looked-up name), and another applying block that sets the same
+    option - in three orders, with and without a trailing `Match final` block.  Looked up: the alias and the real name."""
+    P = lambda txt, neg=False: {"neg": neg, "p": list(txt)}                          # noqa: E731
+    L = lambda k, v: {"k": k, "v": list(v), "none": False}                         # noqa: E731
+    host_blk = lambda pats, body: {"kind": "host", "implicit": False, "pats": pats, "crit": [], "body": body}     # noqa: E731
+    match_blk = lambda crit, body: {"kind": "match", "implicit": False, "pats": [], "crit": crit, "body": body}  # noqa: E731
+    real = "bb.cc"
+    setters = [host_blk([P("a")], [L("hostname", real)]),
+               match_blk([{"type": "originalhost", "neg": False, "pats": [P("a")]}], [L("hostname", real)]),
+               host_blk([P("a"), P("ab")], [L("user", "me"), L("hostname", real)])]
+    patterns = [[P(real)], [P("*.cc")], [P("b?.cc"), P("zz", True)], [P("*.cc"), P("a", True)]]
+    options = [("compression", "yes", "no"), ("port", "2222", "80"), ("forwardagent", "yes", "no")]
+    thirds = [lambda b: host_blk([P("*")], b), lambda b: match_blk([{"type": "all", "neg": False, "pats": []}], b)]
+    out, n = [], 0
+    for si, setter in enumerate(setters):
+        for pi, pats in enumerate(patterns):
+            for order in ("HML", "HLM", "MHL"):
+                for final in (False, True):
+                    key, v1, v2 = options[n % len(options)]
+                    third = thirds[(n // 3) % 2]
+                    n += 1
+                    blocks = {"H": setter,
+                              "M": match_blk([{"type": "host", "neg": False, "pats": pats}], [L(key, v1), L("controlpath", "/m")]),
+                              "L": third([L(key, v2), L("proxyjump", "j")])}
+                    cfg = [{"kind": "host", "implicit": True, "pats": [P("*")], "crit": [], "body": []}] + [blocks[x] for x in order]
+                    if final:
+                        cfg.append(match_blk([{"type": "final", "neg": False, "pats": []}], [L(key, "f"), L("serveraliveinterval", "5")]))
+                    out.append((cfg, [list("a"), list(real)]))
+    return out
+
+
 def show(cfg):
     return drv.cfg_render(cfg)
 
@@ -254,6 +287,15 @@ def run(c):
             c.case(key=text + "|" + "".join(h),
                    sample={"config": text, "host": "".join(h), "lookup": {e["k"]: ["".join(v) for v in e["vals"]] for e in lookups[0]["opts"]}}
                    if len(c.samples) < 4 and len(cfg) > 2 and h is hosts[0] else None)
+    # fixed stratum: `Match host` that applies through the HostName obtained so far, and a later block with the same option
+    for cfg, hosts in match_host_stratum():
+        text = drv.cfg_render(cfg)
+        gh, lookups = drv.cfg_observe(text, hosts)
+        records.append({"cfg": cfg, "env": env, "gh": gh, "lookups": lookups, "text": text})
+        for h in hosts:
+            c.case(key=text + "|" + "".join(h),
+                   sample={"config": text, "host": "".join(h), "lookup": {e["k"]: ["".join(v) for v in e["vals"]] for e in lookups[0]["opts"]}}
+                   if len(c.samples) < 5 and h is hosts[0] else None)
     stage["random_s"] = round(time.time() - t0, 1)
     c.traces += sum(len(r["lookups"]) for r in records)
     seen = {}
@@ -300,5 +342,7 @@ def run(c):
     c.rule = ("every config TLC builds from the header universe (Host with wildcard/negated patterns, Match all/final/originalhost[/host/user]) x body "
               "universe (repeated keys, ProxyCommand none, IdentityFile lists, tokens) with <= 2 explicit blocks x 3 names (quick tier: a seeded sample of 1200 of these configs), rendered and run through SSHConfig; "
               "+ seeded random configs of 1-12 blocks x 3 names with spelling/spacing variants + a stratum of 1-3 applying blocks whose IdentityFile "
-              "lists repeat values (inside the first contributing block, inside later ones, across blocks); distinct = distinct (config text, hostname)")
+              "lists repeat values (inside the first contributing block, inside later ones, across blocks) + a fixed family of 72 configs "
+              "(HostName-setting block, `Match host` applying only through that HostName, another block with the same option; 3 orders, "
+              "with/without `Match final`) x 2 names; distinct = distinct (config text, hostname)")
     c.assumptions = ["POSIX fnmatch semantics; patterns use only * and ?", "the local user/home/hostname/fqdn do not change during the run"]
